@@ -237,6 +237,24 @@ let do_dec tref hx =
     let rd = (match mx_ref_decode s idx b zero with Some m -> string_of_val m | None -> "reject") in
     String.concat "\t" ["st=" ^ st; "val=" ^ string_of_val m; "ref=" ^ rd]
 
+(* hist: typeref gotype x<a>,x<b>,... -> seq=<st> seqval=<v> one=<st> oneval=<v> ref=<v|reject> *)
+let do_hist tref chunks =
+  let (s, p, idx) = lookup tref in
+  match p with
+  | None -> "nogen"
+  | Some progs ->
+    let cs = List.map bytes_of_hex (String.split_on_char ',' chunks) in
+    let zero = mx_zero progs idx in
+    let st_s e = (match e with None -> "ok" | Some (f, c) -> "err:" ^ string_of_z f ^ ":" ^ string_of_ecls c) in
+    let (se, sv) = List.fold_left (fun (e, m) c ->
+        match e with
+        | Some _ -> (e, m)
+        | None -> mx_unmarshal progs idx c m) (None, zero) cs in
+    let all = List.concat cs in
+    let (oe, ov) = mx_unmarshal progs idx all zero in
+    let rd = (match mx_ref_decode s idx all zero with Some m -> string_of_val m | None -> "reject") in
+    String.concat "\t" ["seq=" ^ st_s se; "seqval=" ^ string_of_val sv; "one=" ^ st_s oe; "oneval=" ^ string_of_val ov; "ref=" ^ rd]
+
 let dispatch suite cols =
   match suite, cols with
   | "bitset", input :: _ -> do_bitset input
@@ -244,6 +262,7 @@ let dispatch suite cols =
   | "schema", name :: sx :: _ -> do_schema name sx
   | "msg", tref :: _ :: v :: _ -> do_msg tref v
   | "dec", tref :: _ :: hx :: _ -> do_dec tref hx
+  | "hist", tref :: _ :: cs :: _ -> do_hist tref cs
   | _ -> "?unknown-suite"
 
 let () =
